@@ -7,6 +7,7 @@ their input (a clause keyword, `;`, `End`) and treat all boundary tokens alike:
 -/
 namespace Sqlgrep
 namespace Parse
+namespace Concat
 
 variable {t2 : PSt} {T : PrecTables}
 
@@ -355,5 +356,6 @@ theorem createBody_swapB (hT : InertBoundary T) (h2 : Boundary t2.cur.tok) (n : 
     simp only [mapSt_ok]
     cs_auto2
 
+end Concat
 end Parse
 end Sqlgrep
